@@ -693,3 +693,13 @@ Proof.
   - intros node Hn. exact (mesh1_new_get [q 0 1; q 1 2; q 2 1] 2 node Hn).
 Qed.
 
+(* ---- tie of the model to the source of this run (package r2c2): gen/SrcMesh.v is regenerated from src/mesh1d.rs and
+   src/mesh2d.rs by driver/rust2coq.py on every check run (26 functions: every storage path, Index, the interpolation loop,
+   the three trapezium rules, assign / apply / cross sections / var_as_matrix; file I/O excluded); Proofs/SrcEqMesh.v proves
+   each regenerated function equal to its hand-written model of Model/Mesh.v, for every arithmetic, every coordinate type and
+   every mesh value (well-formed or not).  The literals 0.5 / 0.25 / 1.0e-7 are the model's parameters half / quarter / snap. *)
+From OV Require Proofs.SrcEqMesh.
+Theorem model_is_source_C19_Mesh : forall (A : Arith) (X : Type), @SrcEqMesh.model_is_source_Mesh A X.
+Proof. intros A X. exact SrcEqMesh.model_is_source_Mesh_lemma. Qed.
+Check model_is_source_C19_Mesh : forall (A : Arith) (X : Type), @SrcEqMesh.model_is_source_Mesh A X.
+Print Assumptions model_is_source_C19_Mesh.
